@@ -66,6 +66,12 @@ func spaces(thorough bool) []chanmc.Space {
 				{By: 0, Amt: sat(30000, 0), Fate: "settle", Dup: 1}, {By: 0, Amt: sat(30000, 0), Fate: "fail", Dup: 1},
 				{By: 1, Amt: sat(th[3], 999), Fate: "settle"},
 			}}})
+			// two shards of one payment: equal hash and expiry, different amounts,
+			// the larger one first (BIP69 puts the smaller output first)
+			out = append(out, chanmc.Space{Dev: dev, P: chanmc.Params{Type: typ, OpenerB: openerB, Script: []chanmc.Intent{
+				{By: ti % 2, Amt: sat(300000, 0), Fate: "settle", Dup: 2}, {By: ti % 2, Amt: sat(100000, 0), Fate: "settle", Dup: 2},
+				{By: 1 - ti%2, Amt: sat(th[0]+th[2], 0), Fate: "fail"},
+			}}})
 			out = append(out, chanmc.Space{Dev: dev, P: chanmc.Params{Type: typ, OpenerB: !openerB, Fees: []int64{5000}, Script: []chanmc.Intent{
 				{By: 0, Amt: sat(th[1]-1, 0), Fate: "malformed"}, {By: 1, Amt: sat(th[2], 0), Fate: "settle"},
 				{By: 1, Amt: sat(th[3]-1, 500), Fate: "fail"},
